@@ -31,3 +31,8 @@ import RenetVerif.Lemmas.SrcEquiv.NcClient
 import RenetVerif.Lemmas.SrcEquiv.TrSocket
 import RenetVerif.Lemmas.SrcEquiv.TrServer
 import RenetVerif.Lemmas.SrcEquiv.TrClient
+import RenetVerif.Lemmas.SrcEquiv.TrInv
+import RenetVerif.Lemmas.SrcEquiv.InvBridge
+import RenetVerif.Lemmas.SrcEquiv.SendTimeInv
+import RenetVerif.Lemmas.SrcEquiv.SendBridge
+import RenetVerif.Lemmas.SrcEquiv.TrClosed
